@@ -102,3 +102,97 @@ pub fn sync_point(name: &'static str) {
         h(name);
     }
 }
+
+// ---------------------------------------------------------------------------
+// Transport seam of the client's dialer.
+//
+// With the feature on, `client.rs` names this `TcpStream` instead of tokio's
+// (a cfg switch of the import, like loom's type switches). Without a dialer
+// installed on the current thread it is a thin wrapper around the real
+// `tokio::net::TcpStream`; with one, `connect` hands out an in-memory
+// transport, so that the real dial / TLS handshake / session set-up code of
+// the client runs without sockets under a deterministic runtime.
+
+/// In-memory transport a dialer may hand out.
+pub trait VerifIo: tokio::io::AsyncRead + tokio::io::AsyncWrite + Unpin + Send {}
+impl<T: tokio::io::AsyncRead + tokio::io::AsyncWrite + Unpin + Send> VerifIo for T {}
+
+/// `Some(io)` replaces the TCP connection to `addr`; `None` dials for real.
+pub type Dialer = Rc<dyn Fn(&str) -> Option<std::io::Result<Box<dyn VerifIo>>>>;
+
+thread_local! {
+    static DIALER: RefCell<Option<Dialer>> = const { RefCell::new(None) };
+}
+
+/// Install (or remove) the dialer of the current thread; returns the old one.
+pub fn install_dialer(dialer: Option<Dialer>) -> Option<Dialer> {
+    DIALER.with(|d| std::mem::replace(&mut *d.borrow_mut(), dialer))
+}
+
+pub enum TcpStream {
+    Real(tokio::net::TcpStream),
+    Mem(Box<dyn VerifIo>),
+}
+
+impl TcpStream {
+    pub async fn connect(addr: &str) -> std::io::Result<Self> {
+        if let Some(io) = dial_in_memory(addr) {
+            return io.map(TcpStream::Mem);
+        }
+        tokio::net::TcpStream::connect(addr)
+            .await
+            .map(TcpStream::Real)
+    }
+}
+
+fn dial_in_memory(addr: &str) -> Option<std::io::Result<Box<dyn VerifIo>>> {
+    let dialer = DIALER.try_with(|d| d.borrow().clone()).ok().flatten()?;
+    dialer(addr)
+}
+
+/// `util::configure_tcp_stream` for the seam type (nothing to configure in memory).
+pub fn configure_tcp_stream(stream: &TcpStream, context: &str) {
+    if let TcpStream::Real(s) = stream {
+        crate::util::configure_tcp_stream(s, context);
+    }
+}
+
+impl tokio::io::AsyncRead for TcpStream {
+    fn poll_read(
+        self: Pin<&mut Self>,
+        cx: &mut Context<'_>,
+        buf: &mut tokio::io::ReadBuf<'_>,
+    ) -> Poll<std::io::Result<()>> {
+        match self.get_mut() {
+            TcpStream::Real(s) => Pin::new(s).poll_read(cx, buf),
+            TcpStream::Mem(s) => Pin::new(s).poll_read(cx, buf),
+        }
+    }
+}
+
+impl tokio::io::AsyncWrite for TcpStream {
+    fn poll_write(
+        self: Pin<&mut Self>,
+        cx: &mut Context<'_>,
+        buf: &[u8],
+    ) -> Poll<std::io::Result<usize>> {
+        match self.get_mut() {
+            TcpStream::Real(s) => Pin::new(s).poll_write(cx, buf),
+            TcpStream::Mem(s) => Pin::new(s).poll_write(cx, buf),
+        }
+    }
+
+    fn poll_flush(self: Pin<&mut Self>, cx: &mut Context<'_>) -> Poll<std::io::Result<()>> {
+        match self.get_mut() {
+            TcpStream::Real(s) => Pin::new(s).poll_flush(cx),
+            TcpStream::Mem(s) => Pin::new(s).poll_flush(cx),
+        }
+    }
+
+    fn poll_shutdown(self: Pin<&mut Self>, cx: &mut Context<'_>) -> Poll<std::io::Result<()>> {
+        match self.get_mut() {
+            TcpStream::Real(s) => Pin::new(s).poll_shutdown(cx),
+            TcpStream::Mem(s) => Pin::new(s).poll_shutdown(cx),
+        }
+    }
+}
